@@ -8,3 +8,4 @@ open Bec2Verif.Props.C02
 #print axioms adapter_instance
 #print axioms bec2_read_write_aes
 #print axioms bec2_read_write_shipped
+#print axioms bec2_readFile_writeFile_shipped
